@@ -365,12 +365,14 @@ CHECKS["C14"] = {
     "level_text": "for every field kind (key, value, continuation line, section name, comment before, comment after) and every length in {1, 8190..8194, 16384, "
                   "65536, 1 Mi}: read, key/section listings, plain and extended getter, merge in both roles, write + re-read, layered read and error location "
                   "must return exactly the bytes written; drop-in names of 100/254/255 bytes; file paths of 4000..4200 bytes around PATH_MAX (success below, "
-                  "error code at and above); option strings and unknown option names of those lengths; econftool --delimiters of those lengths (up to 64 Ki)",
+                  "error code at and above); option strings and unknown option names of those lengths; econftool --delimiters of those lengths (up to 64 Ki); "
+                  "one object with 16 entries whose value and both comments have 64 Ki each (read, write + re-read, merge); all library calls run on a thread with a "
+                  "512 KiB stack so that stack use growing with a field length overflows within the enumerated lengths",
     "level_note": "finite product, completely enumerated (quick without the 1 MiB column); trusted: ASan/UBSan, tmpfs limits = Linux NAME_MAX 255 / PATH_MAX 4096",
     "rule": "case = (field kind, length); non-trivial = length > 1; distinct by construction",
     "deadline": {"quick": 100, "thorough": 600},
     "parts": [
-        {"name": "lengths", "harness": "c14", "variant": "asan", "quick": ["--p0", 0], "thorough": ["--p0", 1], "case_timeout": 120,
+        {"name": "lengths", "harness": "c14", "variant": "asan", "quick": ["--p0", 0], "thorough": ["--p0", 1], "case_timeout": 120, "ldflags": ["-pthread"],
          "floor": {"quick": 50, "thorough": 60}},
     ],
     "assumptions": ["allocation failure is not injected"],
